@@ -713,6 +713,10 @@ func (ex *Exec) finishCall(st *State, pc *preparedCall, k func(*State, []Val)) {
 			k(st, []Val{r})
 			return
 		}
+		if (key == "sort.Slice" || key == "sort.SliceStable") && len(pc.args) == 2 && pc.args[1].Clo != nil && pc.args[1].Clo.Lit != nil {
+			ex.sortSliceIntrinsic(st, pc, k)
+			return
+		}
 		fc := ex.cs.Funcs[key]
 		if fc != nil {
 			if fc.Inline {
@@ -870,7 +874,7 @@ func (ex *Exec) havocLvalue(st *State, e ast.Expr) {
 // ---------- contract application ----------
 
 func (ex *Exec) calleeEnv(st *State, fc *FuncContract, fn *types.Func, recv *Val, args []Val) *Env {
-	env := &Env{ex: ex, names: map[string]Val{}, cur: st, pkg: ex.typesPkgFor(fc.PkgPath, fn.Pkg())}
+	env := &Env{ex: ex, names: map[string]Val{}, cur: st, pkg: ex.typesPkgFor(fc.PkgPath, fn.Pkg()), pureCallbacks: fc.PureCallbacks}
 	sig := fn.Type().(*types.Signature)
 	if recv != nil {
 		env.names["this"] = *recv
@@ -944,6 +948,7 @@ func (ex *Exec) applyContract(st *State, fc *FuncContract, pc *preparedCall, k f
 		ex.applyIterator(st, fc, pc, env, k)
 		return
 	}
+	ex.linkClosureContracts(st, fc, pc)
 	pre := st.clone()
 	preEnv := ex.calleeEnv(pre, fc, fn, pc.recv, pc.args)
 	ex.havocModifies(st, fc, pc)
